@@ -1011,6 +1011,19 @@ func (v *Verifier) VerifyFunction(fn *ssa.Function, fc *FuncContract) (err error
 	v.vacuity(st, "entry of "+funcRef(fn))
 	exits := v.runFunc(fn, st, args, clo)
 	for _, e := range exits {
+		if !e.st.dead {
+			v.cover(e.st, "some return")
+		}
+	}
+	// unreachable cover targets are undischargeable obligations (vacuity guard)
+	for _, what := range v.coverOrder {
+		if !v.coverSeen[what] {
+			name := funcRef(fn) + "#cover@\"" + what + "\""
+			v.obls[name] = &Obligation{Name: name, Kind: "cover", Func: funcRef(fn), Clause: what + " is unreachable under the contract (vacuous proof)", pairs: [][2]*Term{{True, False}}}
+			v.oblOrder = append(v.oblOrder, name)
+		}
+	}
+	for _, e := range exits {
 		if e.st.dead {
 			continue
 		}
@@ -1133,6 +1146,33 @@ func storesToField(fn *ssa.Function, typeKey, field string) bool {
 	return false
 }
 
+// modifiesNamesGhost: some modifies target of fc is rooted at ghost global g (or is `anything`).
+func modifiesNamesGhost(fc *FuncContract, g string) bool {
+	var root func(e *Expr) string
+	root = func(e *Expr) string {
+		switch e.Op {
+		case "id":
+			return e.Name
+		case "star", "field", "index", "paren":
+			if len(e.Args) > 0 {
+				return root(e.Args[0])
+			}
+		}
+		return ""
+	}
+	for _, c := range fc.Clauses {
+		if c.Kind != "modifies" || c.IsLoop {
+			continue
+		}
+		for _, e := range c.Exprs {
+			if n := root(e); n == g || n == "anything" {
+				return true
+			}
+		}
+	}
+	return false
+}
+
 func hasModifies(fc *FuncContract) bool {
 	if fc == nil {
 		return false
@@ -1222,7 +1262,7 @@ func (v *Verifier) frameGoals(cur *State, only map[string]Sort) (keys []string, 
 		goals = append(goals, Forall([]*Term{r}, body, []*Term{Select(hc, r)}))
 	}
 	// ghost globals not named in a modifies clause keep their value
-	if only == nil {
+	{
 		for _, g := range sortedKeys(cur.ghost) {
 			if strings.HasPrefix(g, "$") {
 				continue
